@@ -1,6 +1,7 @@
 //! vcheck — model-checking harness for bytebeamio/rumqtt (see /verif/DESIGN.md).
 mod e1;
 mod e2;
+mod e3_codec;
 mod e4_topicgrid;
 mod e5_commitlog;
 mod vcore;
@@ -49,6 +50,8 @@ fn main() {
             "C17" => e1::run::run("C17", tier),
             "C19" => e1::run::run("C19", tier),
             "C20" => e1::run::run("C20", tier),
+            "C04" => e3_codec::run_c04(tier),
+            "C05" => e3_codec::run_c05(tier),
             "C12" => e4_topicgrid::run(tier),
             "C13" => e5_commitlog::run(tier),
             _ => usage(),
@@ -75,6 +78,7 @@ fn replay(path: &str) -> i32 {
     match r["engine"].as_str().unwrap_or("") {
         "e1_router" => e1::run::replay(r),
         "e2_client" => e2::run::replay(r),
+        "e3_codec" => e3_codec::replay(r),
         "e4_topicgrid" => e4_topicgrid::replay(r),
         "e5_commitlog" => e5_commitlog::replay(r),
         other => vcore::machinery_error(&format!("unknown engine {other}")),
